@@ -57,8 +57,8 @@ C["C03"] = dict(level="other",
  assumptions=COMMON_ASSUME + ["'bounded time' is rendered as 'not blocked in any terminal state'", "cuts are at frame granularity (n whole frames, then the read fails); byte-level cuts are the framing layer's business (C01 FRAM run)"],
  stubs=["zzMsgs (socket.Messages)", "zzBytesCodec"],
  bounds={"callers": "2 (thorough 3)", "cut": "after 0..K responses", "modes": "default, directIO, client pipelining", "schedules": SCHED},
- outside=["wall-clock bounds", "TLS/ws framing", "open streams at the cut (C10)"],
- runs={"quick": [run("C03")], "thorough": [run("C03", params={"c03.K": 3}, budget=1500)]})
+ outside=["wall-clock bounds", "TLS/ws framing"],
+ runs={"quick": [run("C03"), run("STRc", labels=["reader-unblocked", "blocked-read-returns-shutdown"])], "thorough": [run("C03", params={"c03.K": 3}, budget=1500), run("STRc", P=1, gran=1, params={"str.N": 1, "str.badwrite": 0}, labels=["reader-unblocked", "blocked-read-returns-shutdown"], budget=600)]})
 
 C["C04"] = dict(level="other",
  explanation="Symbolic execution of the real server path ServeCodec -> ServeRequest -> handleRequest -> readRequestBody -> callService -> sendResponse with the real serverCodec: N request frames of every kind (each handler shape, failing handler, unknown method, ping), symbolic argument bytes, all server modes (pipelining x directIO x context buffer x buffer size), frames arriving together or one by one; the execution log must contain exactly one entry per executable request with that request's own argument bytes, pings none, and the write log exactly one response per request with its sequence number.",
@@ -76,8 +76,8 @@ C["C05"] = dict(level="other",
  stubs=["zzMsgs", "funcs model", "zzBytesCodec"],
  bounds={"requests / calls": "2 (thorough 3)", "schedules": SCHED},
  outside=["ping responses relative to call responses", "write failures / connection loss in the client order (C02 harness covers completion, not order)"],
- runs={"quick": [run("SRV", params={"srv.pipelining": 1}, labels=SRV_C05), run("CLI", labels=["pipelined-completion-order"])],
-       "thorough": [run("SRV", params={"srv.pipelining": 1, "srv.N": 3, "srv.kinds": 4}, labels=SRV_C05, budget=1500), run("CLI", params={"cli.K": 3}, labels=["pipelined-completion-order"], budget=900)]})
+ runs={"quick": [run("SRV", params={"srv.pipelining": 1}, labels=SRV_C05), run("CLI", labels=["pipelined-completion-order"]), run("SRVp", labels=SRV_C05 + ["one-response-per-request", "no-extra-or-missing-execution"]), run("SRVp", P=1, gran=1, labels=SRV_C05 + ["one-response-per-request", "no-extra-or-missing-execution"], budget=300)],
+       "thorough": [run("SRV", params={"srv.pipelining": 1, "srv.N": 3, "srv.kinds": 4}, labels=SRV_C05, budget=1500), run("CLI", params={"cli.K": 3}, labels=["pipelined-completion-order"], budget=900), run("SRVp", P=2, gran=1, params={"srv.N": 2}, labels=SRV_C05 + ["one-response-per-request", "no-extra-or-missing-execution"], budget=1500), run("SRVp", P=1, gran=1, params={"srv.N": 3, "srvp.yield": 1}, labels=SRV_C05 + ["one-response-per-request", "no-extra-or-missing-execution"], budget=1500)]})
 
 C["C06"] = dict(level="other",
  explanation="Client: for a response frame with error text E exactly the call with that sequence number fails, Error.Error() equals E byte for byte when read after all further frames have been processed (pool reuse), Reply is untouched, the neighbour call gets its own reply. Server: every failure path (handler error, unknown method, undecodable arguments) yields exactly one response with the server-side text. A request that cannot be encoded fails only that call and NumCalls returns to its previous value.",
@@ -86,17 +86,18 @@ C["C06"] = dict(level="other",
  stubs=["zzMsgs", "funcs model", "zzBytesCodec"],
  bounds={"calls": "2 (thorough 3)", "schedules": SCHED, "pool policy": "LIFO reuse"},
  outside=["json header (copies strings)", "reply marshal errors"],
- runs={"quick": [run("CLI", labels=["error-text-of-own-call", "reply-untouched-on-error", "no-error", "reply-of-own-args"]), run("SRV", params={"srv.kinds": 7}, labels=SRV_C06), run("C06w")],
-       "thorough": [run("CLI", params={"cli.K": 3}, labels=["error-text-of-own-call", "reply-untouched-on-error", "no-error", "reply-of-own-args"], budget=900), run("SRV", params={"srv.kinds": 7, "srv.N": 3}, labels=SRV_C06, budget=2400), run("C06w")]})
+ runs={"quick": [run("CLI", labels=["error-text-of-own-call", "reply-untouched-on-error", "no-error", "reply-of-own-args"]), run("SRV", params={"srv.kinds": 7}, labels=SRV_C06), run("C06w"), run("C06x")],
+       "thorough": [run("CLI", params={"cli.K": 3}, labels=["error-text-of-own-call", "reply-untouched-on-error", "no-error", "reply-of-own-args"], budget=900), run("SRV", params={"srv.kinds": 7, "srv.N": 3}, labels=SRV_C06, budget=2400), run("C06w"), run("C06x"), run("C06x", P=1, gran=1, budget=900)]})
 
 C["C07"] = dict(level="other",
  explanation="Bounded symbolic execution of the real header encoders/decoders (default pbRequest/pbResponse + checkBuffer, 'pb' = GOGOPBCodec wrapper, 'code' request/response, upgrade byte, and the clientCodec/serverCodec glue) from go/ssa: field contents, the 64-bit sequence number (symbolic inside each varint size class), stale scratch-buffer contents and flags are z3 bit-vector variables; field lengths and capacities are case-split over the stated menu. Obligations per path: no panic, decode(encode(m)) = m, output byte-equal to an independent reference encoder of the documented formats, in-place when the buffer suffices and nothing written past Size().",
  rule="one case = one feasible path (size class of Seq x field-length choice x scratch capacity relative to Size()); non-trivial = needed at least one solver query",
  assumptions=["field lengths restricted to the menu stated under bounds", "z3 4.8.12 answers are trusted; unknown/error answers make the check exit 2"],
  stubs=["zzMsgs for the glue harness"],
- bounds={"seq": "all 2^64 values (10 varint size classes + 0; glue harness: classes 0,1,2,10)", "field lengths": "quick: 0..2,127,128 per field; thorough: 0..3,127,128,16383,16384", "scratch capacity": "nil, Size()-1, Size(), Size()+3 with symbolic stale contents", "pool buffer sizes (glue)": "8, 64, 512", "unwind": "symbolically decided loop heads: at most 40 visits, with unwinding assertion"},
+ bounds={"seq": "all 2^64 values (10 varint size classes + 0; glue harness: classes 0,1,2,10)", "field lengths": "quick: 0..2,127,128 per field with every Seq class, plus 0,1,127,128,16383,16384 with Seq classes 0,1,2,10; thorough: 0..3,127,128,16383,16384 with every Seq class", "scratch capacity": "nil, Size()-1, Size(), Size()+3 with symbolic stale contents", "pool buffer sizes (glue)": "8, 64, 512", "unwind": "symbolically decided loop heads: at most 40 visits, with unwinding assertion"},
  outside=["json header encoder (encoding/json via reflection: not encodable with this engine)", "field lengths outside the menu (in particular > 16384)", "unknown field numbers"],
- runs={"quick": [run("C07upg"), run("C07pbq"), run("C07pbr"), run("C07gogo"), run("C07codeq"), run("C07coder"), run("C07glue", params={"c07.small": 1, "c07.seqmode": 1, "c07.b128": 1})],
+ runs={"quick": [run("C07upg"), run("C07pbq"), run("C07pbr"), run("C07gogo"), run("C07codeq"), run("C07coder"), run("C07glue", params={"c07.small": 1, "c07.seqmode": 1, "c07.b128": 1})] +
+               [run(h, params={"c07.small": 1, "c07.seqmode": 1, "c07.b16k": 1}) for h in ("C07pbq", "C07pbr", "C07codeq", "C07coder")],
        "thorough": [run("C07upg"), run("C07pbq", params={"c07.small": 3, "c07.b16k": 1}, budget=2400), run("C07pbr", params={"c07.small": 3, "c07.b16k": 1}, budget=1200), run("C07gogo", params={"c07.small": 2, "c07.b16k": 1}, budget=2400), run("C07codeq", params={"c07.small": 3, "c07.b16k": 1}, budget=2400), run("C07coder", params={"c07.small": 3, "c07.b16k": 1}, budget=1200), run("C07glue", params={"c07.small": 2, "c07.seqmode": 1}, budget=2400)]})
 
 C["C08"] = dict(level="other",
@@ -106,8 +107,8 @@ C["C08"] = dict(level="other",
  stubs=["zzMsgs", "funcs model", "zzBytesCodec (returns an error for a value of the wrong type, like GOGOPB/CODE/MSGP codecs)"],
  bounds={"frame length": "decoders: quick 0..4, thorough 0..6; client reader: 0..3 (thorough 4) with 8-byte read buffers", "burst": "2 (thorough 3) requests", "schedules": SCHED},
  outside=["the framing layer's own varint-overflow panic and allocation of a peer-announced length", "memory exhaustion", "TLS/ws handshakes", "poll-mode teardown"],
- runs={"quick": [run("C08dec"), run("C08srv", labels=["panic", "probe-reply", "probe-answered-once"]), run("C08cli"), run("C08down")],
-       "thorough": [run("C08dec", params={"c08.N": 6}, budget=1500), run("C08srv", labels=["panic", "probe-reply", "probe-answered-once"]), run("C08cli", params={"c08.N": 4}, budget=1500), run("C08down", params={"down.N": 3}), run("C08down", P=1, gran=1, budget=1500)]})
+ runs={"quick": [run("C08dec"), run("C08big"), run("C08srv", labels=["panic", "probe-reply", "probe-answered-once"]), run("C08seq"), run("C08cli"), run("C08down")],
+       "thorough": [run("C08dec", params={"c08.N": 6}, budget=1500), run("C08big"), run("C08seq", params={"seq.N": 3}, budget=1500), run("C08srv", labels=["panic", "probe-reply", "probe-answered-once"]), run("C08cli", params={"c08.N": 4}, budget=1500), run("C08down", params={"down.N": 3}), run("C08down", P=1, gran=1, budget=1500)]})
 
 C["C09"] = dict(level="other",
  explanation="Client side: the real NewStream / stream branches of send and read / readStream queue / stream.ReadMessage against an environment that acknowledges the open request and pushes N messages with symbolic contents without pausing after the acknowledgement; the sequence returned by ReadMessage must equal the sequence pushed. Server side: the real ServeRequest/callService stream branches and the stream write closure with a handler that writes and reads in either order; the wire must carry the acknowledgement before the first push and the pushes in order, the handler must read exactly what the client sent.",
@@ -116,8 +117,8 @@ C["C09"] = dict(level="other",
  stubs=["zzMsgs", "stub listener/socket for Server.listen", "funcs model", "zzBytesCodec"],
  bounds={"streams": "1", "messages per direction": "client harness 2 (thorough 3); server harness 1 (thorough 2)", "schedules": SCHED},
  outside=["several streams on one connection", "interleaving with unary calls beyond the one made after close"],
- runs={"quick": [run("STRc", labels=["all-messages-delivered", "messages-in-order-unmodified", "stream-opened", "open-request-flags"]), run("STRs", labels=["handler-received-every-message", "handler-messages-in-order-unmodified", "pushes-written", "pushes-in-order-unmodified", "ack-precedes-first-push"])],
-       "thorough": [run("STRc", params={"str.N": 3}, labels=["all-messages-delivered", "messages-in-order-unmodified", "stream-opened", "open-request-flags"]), run("STRs", params={"str.W": 2, "str.R": 2}, labels=["handler-received-every-message", "handler-messages-in-order-unmodified", "pushes-written", "pushes-in-order-unmodified", "ack-precedes-first-push"], budget=900)]})
+ runs={"quick": [run("STRc", labels=["all-messages-delivered", "message-after-failed-write-delivered", "messages-in-order-unmodified", "stream-opened", "open-request-flags"]), run("STRs", params={"str.W": 2, "str.R": 2}, labels=["handler-received-every-message", "handler-messages-in-order-unmodified", "pushes-written", "pushes-in-order-unmodified", "ack-precedes-first-push"])],
+       "thorough": [run("STRc", params={"str.N": 3}, labels=["all-messages-delivered", "message-after-failed-write-delivered", "messages-in-order-unmodified", "stream-opened", "open-request-flags"]), run("STRs", params={"str.W": 2, "str.R": 2}, labels=["handler-received-every-message", "handler-messages-in-order-unmodified", "pushes-written", "pushes-in-order-unmodified", "ack-precedes-first-push"], budget=900)]})
 
 C["C10"] = dict(level="other",
  explanation="Same stream harnesses as C09, asserting shutdown behaviour in terminal states: after a client-side Close of the stream, peer EOF or local Close of the connection, the blocked ReadMessage returns ErrStreamShutdown, later reads/writes return ErrStreamShutdown, a unary call still works after closing one stream; on the server (poll and non-poll modes through the real Server.listen closures) the handler returns once the stream is closed or the connection is gone and no goroutine is left.",
@@ -126,8 +127,8 @@ C["C10"] = dict(level="other",
  stubs=["zzMsgs", "stub listener/socket", "funcs model"],
  bounds={"streams": "1", "schedules": SCHED},
  outside=["sibling streams", "real netpoll event loop"],
- runs={"quick": [run("STRc", labels=["reader-unblocked", "blocked-read-returns-shutdown", "read-after-shutdown", "write-after-shutdown", "stream-close-returns", "unary-call-after-stream-close", "close-request-flags"]), run("STRs", labels=["handler-returns-after-stream-or-connection-end", "no-goroutine-left"])],
-       "thorough": [run("STRc", params={"str.N": 3}, labels=["reader-unblocked", "blocked-read-returns-shutdown", "read-after-shutdown", "write-after-shutdown", "stream-close-returns", "unary-call-after-stream-close", "close-request-flags"]), run("STRs", params={"str.W": 2, "str.R": 2}, labels=["handler-returns-after-stream-or-connection-end", "no-goroutine-left"], budget=900)]})
+ runs={"quick": [run("STRc", labels=["reader-unblocked", "blocked-read-returns-shutdown", "read-after-shutdown", "write-after-shutdown", "stream-close-returns", "unary-call-after-stream-close", "close-request-flags"]), run("STRs", labels=["handler-returns-after-stream-or-connection-end", "no-goroutine-left"]), run("STRc", P=1, gran=1, params={"str.N": 1, "str.badwrite": 0}, labels=["reader-unblocked", "blocked-read-returns-shutdown", "read-after-shutdown", "write-after-shutdown", "stream-close-returns"], budget=300)],
+       "thorough": [run("STRc", P=1, gran=1, labels=["reader-unblocked", "blocked-read-returns-shutdown", "read-after-shutdown", "write-after-shutdown", "stream-close-returns"], budget=1500), run("STRs", P=1, gran=1, labels=["handler-returns-after-stream-or-connection-end", "no-goroutine-left"], budget=1500), run("STRc", params={"str.N": 3}, labels=["reader-unblocked", "blocked-read-returns-shutdown", "read-after-shutdown", "write-after-shutdown", "stream-close-returns", "unary-call-after-stream-close", "close-request-flags"]), run("STRs", params={"str.W": 2, "str.R": 2}, labels=["handler-returns-after-stream-or-connection-end", "no-goroutine-left"], budget=900)]})
 
 C["C11"] = dict(level="other",
  explanation="The byte slices the library hands to user code are compared, after further traffic through the same (LIFO-reused) pools, with the symbolic bytes they had at hand-over: handler arguments (SRV harness, copy modes), replies (CLI harness; context buffer: C19 harness), stream messages and caller-supplied buffers in stream.ReadMessage (C11m: capacity smaller/equal/larger than the message; bytes beyond the reported length must keep their symbolic stale value). Aliasing is exact in the engine (slices share backing arrays), so a missing copy shows up as a failed equality.",
@@ -157,7 +158,7 @@ C["C13"] = dict(level="other",
  stubs=["zzMsgs (auto-answering server)", "Dial stub", "clock"],
  bounds={"operations": "quick 3, thorough 4", "limits (MaxConns,MaxIdle)": "(1,1),(2,1),(2,2) + (0,0),(1,3) in thorough", "addresses": "2", "ticks": "1 (thorough 2)"},
  outside=["concurrent callers (sequential histories only)", "longer histories"],
- runs={"quick": [run("TR", labels=TR_C13)], "thorough": [run("TR", params={"tr.S": 4, "tr.limits": 5, "tr.ticks": 2}, labels=TR_C13, budget=2400)]})
+ runs={"quick": [run("TR", labels=TR_C13), run("TRlim", params={"trlim.limits": 2}, labels=TR_C13), run("TRcc", labels=TR_C13)], "thorough": [run("TR", params={"tr.S": 4, "tr.limits": 5, "tr.ticks": 2}, labels=TR_C13, budget=2400), run("TRlim", labels=TR_C13, budget=1500), run("TRcc", labels=TR_C13), run("TRcc", P=1, gran=1, labels=TR_C13, budget=1500)]})
 
 C["C14"] = dict(level="other",
  explanation="Same Transport histories as C13 asserting routing (a call to A writes only on connections dialed to A) and failure kinds, plus the directed recovery harness TRrec: one pooled connection, server killed and restarted, then a sequential caller with ticks allowed between calls and symbolic clock readings: at most one failure per pooled connection, then success, and it stays recovered.",
@@ -173,9 +174,9 @@ C["C15"] = dict(level="other",
  rule="one case = one feasible path",
  assumptions=COMMON_ASSUME + ["time.Now arbitrary non-decreasing"],
  stubs=["zzMsgs", "Dial stub", "clock"],
- bounds={"housekeeping operations during the call": "2", "ticks": "2", "thorough": "gran 1, P=2, 1 operation"},
+ bounds={"housekeeping operations during the call": "2", "ticks": "2", "thorough": "gran 1: P=2 with CloseIdleConnections only (limits (1,1), no warm-up); P=1 with one operation and one tick"},
  outside=["open streams as the busy marker", "more than 2 preemptions"],
- runs={"quick": [run("C15")], "thorough": [run("C15"), run("C15", P=2, gran=1, params={"c15.ops": 1, "c15.ticks": 1}, budget=2400)]})
+ runs={"quick": [run("C15"), run("TRlim", params={"trlim.limits": 2}, labels=["close-closes-every-connection"])], "thorough": [run("C15"), run("TRlim", labels=["close-closes-every-connection"], budget=1500), run("C15", P=2, gran=1, params={"c15.ops": 1, "c15.ticks": 0, "c15.nlimits": 1, "c15.nwarm": 1, "c15.closeonly": 1}, budget=900), run("C15", P=1, gran=1, params={"c15.ops": 1, "c15.ticks": 1, "c15.nlimits": 1}, budget=1500)]})
 
 CLT_C16 = ["one-roundtrip-per-call", "director-result-wins", "routed-to-current-target", "unrouted-call-fails-with-timeout"]
 C["C16"] = dict(level="other",
